@@ -6,6 +6,7 @@ PLAN = dict(
           "lands exactly on a format limit (65535/65536, 16384/16385, 524288/524289, thorough: 2^24-1/2^24); one case in four is signed by a Signer object that has already signed an unrelated exchange of a drawn format version (other URLs, dates). Oracle: Write succeeds iff every length fits; "
           "independent layout parse (refsxg) yields the same fields; ReadExchange returns identical version/URL/method/status/normalised headers/"
           "Signature/payload; Verify verdict at date, mid, expires, date-1, expires+1 identical before and after, success returns the original payload and "
+          "The written file is also read in parts: ReadExchangePrologue, then the payload from the SAME reader (any gen.Source kind), must give the same exchange. "
           "only inside the window; conforming specs must verify inside the window. Non-trivial: >=2 header fields with one multi-valued, or a length "
           "within 1 of a limit."),
     assumptions=TRUSTED + ["URLs are https (the format requires it)", "header maps are built with http.Header.Add (canonical keys), as every caller in the repository does"],
